@@ -188,18 +188,26 @@ func checkC08(c *Ctx) {
 			if fd.K.Key(call.Call.Args[0]) != kTCField {
 				return
 			}
-			cl := funcOfValue(call.Call.Args[1])
-			if cl == nil {
+			pf, okP := predicateFacts(fd, call.Call.Args[1])
+			if !okP {
 				return
 			}
-			ways := trueEdges(NewFlow(p, cl))
 			detail = "predicate facts: "
-			for _, w := range ways {
-				detail += "{" + join(w.Sorted()) + "} "
+			nCmp := 0
+			for _, f := range pf {
+				detail += f.String() + "; "
+				if f.Op == "after" {
+					continue
+				}
+				nCmp++
+				// t.View < the view given to deleteOldViews (its parameter)
+				if f.Op == "<" && f.L == "elem."+kTOMsg+"View" && f.R == "p1" {
+					ok = true
+				}
 			}
-			ok = len(ways) == 1 && hasCmp(ways[0], "<", is("p0."+kTOMsg+"View"), func(k string) bool {
-				return strings.Contains(k, "currentView") || k == "fv:currentView" || k == "*fv:currentView"
-			})
+			if nCmp != 1 {
+				ok = false
+			}
 		})
 		c.Check(ok, "C08.6", "deleteOldViews: removes exactly t.View < currentView", p.FuncPos(dov),
 			"DeleteFunc predicate is t.View < currentView (timeouts of the current and future views are kept)", detail)
